@@ -2,6 +2,8 @@ US = ['_ZN12SimpleString6StrLenEPKc.0:112', '_ZN12SimpleString7StrNCpyEPcPKcm.0:
       'env_fputs.0:112', 'env_vsnprintf.4:112', 'env_fopen.0:26', 'body_report.0:24', 'body_report.1:24', 'names_init.0:31', 'names_init.1:31', 'name_of_token.0:31',
       '_ZN12SimpleString7replaceEPKcS1_.0:4', '_ZN12SimpleString7replaceEPKcS1_.1:14', '_ZN12SimpleString6StrStrEPKcS1_.0:14', '_ZN12SimpleString7StrNCmpEPKcS1_m.0:3']
 FS = ['--max-field-sensitivity-array-size', '112']   # heap objects (112 bytes) cell by cell: literal text stays literal through SimpleString copies
+US128 = [u.replace(':112', ':128') for u in US]
+FS128 = ['--max-field-sensitivity-array-size', '128']
 def ob(fn, unwind=20, timeout=900, bounds='', **kw):
     d = {'fn': fn, 'unwind': unwind, 'timeout': timeout, 'bounds': bounds, 'unwindset': US, 'diff_runs': 200, 'cbmc_flags': FS}
     d.update(kw)
@@ -26,10 +28,11 @@ SPEC = {
             ob('harness_after_failing_group_1_0', timeout=1200, bounds='a run of two groups: first a group with one failing test (its file is not judged), then the judged group of 1 passing test; ' + REST),
             ob('harness_two_failures_2_01', timeout=1200, bounds='group of 2 tests: the first reports TWO failures (the second one after its failed check), the second passes; failure message 0..2 bytes ' + A + REST),
             ob('harness_printed_1_0', bounds='group of 1 passing test; printed text 0..2 bytes ' + A + REST),
-            ob('harness_name_only_1_2', bounds='group of 1 ignored test; test name 0..2 bytes ' + A + ' without & < " LF' + REST),
-            ob('harness_group_only_1_0', tier='thorough', timeout=3600, bounds='group of 1 passing test; group name 0..2 bytes ' + A + ' without & < " LF (file name, suite name, class name)' + REST),
-            ob('harness_package_only_1_0', tier='thorough', timeout=3600, bounds='group of 1 passing test; package name 0..2 bytes ' + A + ' without & < " LF (file name, class name)' + REST),
-            ob('harness_file_only_1_1', tier='thorough', timeout=3600, bounds='group of 1 failing test; source file and failing file 0..2 bytes each ' + A + ' without & < " LF' + REST),
+            ob('harness_name_only_1_2', bounds='group of 1 ignored test; test name 0..2 bytes ' + A + REST),
+            # group name: since the attribute values are escaped (fix 4c869fe) a 2-byte group can take 12 characters, three times per file: 128-byte heap objects
+            ob('harness_group_only_1_0', tier='thorough', timeout=5400, defines=['-UENV_MALLOC_CAP', '-DENV_MALLOC_CAP=128'], unwindset=US128, cbmc_flags=FS128, bounds='group of 1 passing test; group name 0..2 bytes ' + A + ' (file name, suite name, class name)' + REST),
+            ob('harness_package_only_1_0', tier='thorough', timeout=3600, bounds='group of 1 passing test; package name 0..2 bytes ' + A + ' (file name, class name)' + REST),
+            ob('harness_file_only_1_1', tier='thorough', timeout=3600, bounds='group of 1 failing test; source file and failing file 0..2 bytes each ' + A + REST),
             ob('harness_texts_2_12', tier='thorough', timeout=7200, bounds='group of 2 tests, the first fails, the second is ignored; failure message and printed text 0..2 bytes each ' + A + REST),
         ],
     }, {
